@@ -183,9 +183,12 @@ class Seams:
         seams = self
 
         def wrapper(self, *a, **kw):
-            if seams.depth or (cond is not None and not cond(self, *a, **kw)):
+            if seams.depth:
                 return orig(self, *a, **kw)
-            seams._hit(step)
+            if cond is None or cond(self, *a, **kw):
+                seams._hit(step)
+            # calls Pillow makes from inside this one (e.g. GifImageFile.n_frames seeking back
+            # during the end-of-pass probe) are not processing steps of the library
             seams.depth += 1
             try:
                 return orig(self, *a, **kw)
